@@ -89,7 +89,7 @@ class C03(Property):
     quick_n = 400
     thorough_n = 10000
     search_n = 500
-    case_timeout = 120
+    case_timeout = 900       # engine alarm per case; the runs have their own timeouts (c01.TIMEOUT_REAL / TIMEOUT_OTHER, one retry)
     workers = 8
     rule = ("an experiment recipe as for C01 (toy or built-in components, shared objects in random patterns, duplicated triples, raising variants at "
             "params / predict / learn / read / evaluate) run under 1-3 configurations (mostly in-process, where objects are really shared; simulator; "
@@ -101,7 +101,7 @@ class C03(Property):
     partial_theorems = {}
 
     def generate(self, rng, tier):
-        real_p = 0.02 if tier == "quick" else 0.008
+        real_p = 0.014 if tier == "quick" else 0.008
         if rng.chance(0.68):
             if rng.chance(0.12):
                 case = c01.gen_seq(rng, tier, real_p)        # phase 4: built-in SequentialCB, rows predicted by the model
@@ -166,6 +166,7 @@ class C03(Property):
                    "runs": [{"cfg": [1, 0, 0], "how": "inproc", "sched": 0, "quiet": True}, {"cfg": [2, 0, 0], "how": "sim", "sched": 3, "quiet": True}]})
         cs += c01.seq_directed_cases()
         cs += c01.seq_directed_cases5()[1::2]      # (the two tuple-list cases; the cross products cost too many alone-runs) phase 5: PMF / info learners, chunk()/cache() pipelines, batched sources (orientation probe)
+        cs += c01.seq_directed_cases6()[1:]        # phase 6: RejectionCB objects inside the model-predicted experiment (tuple list; 103-interaction source, peek of 100)
         # shared chunk()/cache() prefix, all triples of the group in one address space
         cs.append({"kind": "toy", "seed": 2, "envs": [{"tag": 0, "xs": [3, 1, 4, 1, 5], "prefix": [["chunk"]], "branches": [[["shuffle", 3]]]}],
                    "lrns": [{"tag": 0, "mult": 1}, {"tag": 1, "mult": 3}], "vals": [{"tag": 0, "seed": None, "learn": True}],
@@ -194,6 +195,7 @@ class C03(Property):
     # ---- evaluation
     def evaluate(self, case, driver):
         fails, tags = [], []
+        del c01.RETRIED[:]
         kind = case["kind"]
         tags += ["kind:" + kind, "mode:" + case["mode"]] + c01.feature_tags(case)
         for r in case["envs"]:
@@ -338,6 +340,7 @@ class C03(Property):
                     fails[:] = [f for f in fails if f["kind"] != "B"]
         if cache_bug_present() and cached_failing_envs(case):
             tags.append("skipA:cache-bug")
+        tags += c01.RETRIED      # `real:timeout-retried` / `run:timeout-retried`: a run timed out once and was repeated (c01.run_iso)
         return {"fails": fails, "nontrivial": ntriples >= 2 and nrows > 0, "tags": tags, "impl": {"triples": ntriples, "rows": nrows}, "model": model}
 
     def shrink(self, case):
